@@ -11,6 +11,7 @@ import ast
 import os
 import sys
 import sysconfig
+import warnings
 from dataclasses import dataclass, field
 from pathlib import Path
 from typing import Dict, Iterator, List, Optional, Tuple, Union
@@ -103,7 +104,9 @@ class ModuleInfo:
         self.relpath = relpath
         self.external = external
         self.source = path.read_text(encoding="utf-8")
-        self.tree = ast.parse(self.source, filename=str(path))
+        with warnings.catch_warnings():
+            warnings.simplefilter("ignore", SyntaxWarning)
+            self.tree = ast.parse(self.source, filename=str(path))
         self.is_package = path.name == "__init__.py"
         self.imports: Dict[str, str] = {}      # local name -> fully qualified dotted name
         self.star_imports: List[str] = []
